@@ -633,4 +633,60 @@ theorem PoolInv.prioSet (w : World) (p q : Pid) (v : Int) (hi : PoolInv w) : Poo
         · exact ⟨hi'.same (fail_same _ _), fun q' => by rw [← hh' q']; simp⟩
       · exact ⟨hi', hh'⟩
 
+/-! ### the invariant holds in every reachable state -/
+
+theorem PoolInv.preserved : Preserved PoolInv where
+  same hs h := h.same hs
+  tick _ h := PoolInv.of_viewSame ⟨rfl, fun _ => rfl, fun _ _ => Iff.rfl⟩ h
+  finish w p v st h := PoolInv.finishProc w p v st h
+  exec w p c hp h := by
+    by_cases hm : (cmdMask c).pools = false ∧ (cmdMask c).held = false
+    · exact PoolInv.of_fp (execCmd_fp w p c) hm.1 hm.2 h
+    · cases c <;> simp [cmdMask] at hm
+      case stop q val =>
+        simp only [execCmd]
+        split
+        · exact PoolInv.finishProc _ _ _ _ h
+        · split
+          · exact PoolInv.finishProc _ _ _ _ h
+          · exact h
+      case exit val => simp only [execCmd]; exact PoolInv.finishProc _ _ _ _ h
+      case prioSet q v => exact PoolInv.prioSet _ _ _ _ h
+      case acquire r => exact PoolInv.of_viewSame (resCmd_viewSame w p _ rfl) h
+      case preempt r => exact PoolInv.of_viewSame (resCmd_viewSame w p _ rfl) h
+      case release r => exact PoolInv.of_viewSame (resCmd_viewSame w p _ rfl) h
+      case poolAcquire pl n =>
+        simp only [execCmd]
+        split
+        · exact h
+        · split
+          · exact h
+          · exact PoolInv.poolLoop _ _ _ _ _ _ h hp
+      case poolPreempt pl n =>
+        simp only [execCmd]
+        split
+        · exact h
+        · split
+          · exact h
+          · exact PoolInv.poolLoop _ _ _ _ _ _ h hp
+      case poolRelease pl n => exact PoolInv.poolRelease _ _ _ _ h
+      case recStart kind idx => simp only [execCmd]; exact PoolInv.of_viewSame (setRecording_viewSame _ _ _ _) h
+      case recStop kind idx => simp only [execCmd]; exact PoolInv.of_viewSame (setRecording_viewSame _ _ _ _) h
+  resume w p f sig hp h := by
+    by_cases hm : (frameMask f).pools = false ∧ (frameMask f).held = false
+    · exact PoolInv.of_fp (resumeFrame_fp w p f sig) hm.1 hm.2 h
+    · cases f <;> simp [frameMask] at hm
+      case acquire r => exact PoolInv.of_viewSame (acquireFrame_viewSame w p r sig) h
+      case pool pl rem ini pre =>
+        simp only [resumeFrame]
+        split
+        · exact h
+        · rename_i x hx
+          have h1 : PoolInv (guardWaitLeave w x.guard p sig) := h.same (guardWaitLeave_same _ _ _ _)
+          have hp1 : p < (guardWaitLeave w x.guard p sig).procs.size := by
+            rw [(guardWaitLeave_same w x.guard p sig).2.2.2.2.2.2.2.1]; exact hp
+          split
+          · exact PoolInv.poolRollback _ _ _ _ h1
+          · exact PoolInv.poolLoop _ _ _ _ _ _ h1 hp1
+
 end CimbaModel.Sim
